@@ -544,8 +544,48 @@ func indexOfLoop(v ssa.Value) (first int64, ok bool) {
 	return 0, false
 }
 
+// tailTarget: fn only returns the results of one call to a function of its own package that receives fn's first
+// parameter as its first argument (ParseFrame as a thin wrapper of a variant with more parameters): the rules about
+// what fn returns for which input are then decided on that function.
+func tailTarget(fn *ssa.Function) *ssa.Function {
+	rets := an.Returns(fn)
+	if len(rets) != 1 || len(fn.Params) == 0 {
+		return fn
+	}
+	var call *ssa.Call
+	for i, r := range rets[0].Results {
+		ex, ok := r.(*ssa.Extract)
+		if !ok || ex.Index != i {
+			return fn
+		}
+		c2, ok := ex.Tuple.(*ssa.Call)
+		if !ok || (call != nil && c2 != call) {
+			return fn
+		}
+		call = c2
+	}
+	if call == nil {
+		return fn
+	}
+	callee := call.Common().StaticCallee()
+	if callee == nil || len(callee.Blocks) == 0 || callee.Pkg != fn.Pkg || len(call.Common().Args) == 0 || call.Common().Args[0] != ssa.Value(fn.Params[0]) {
+		return fn
+	}
+	// nothing else happens in fn
+	n := 0
+	an.Instrs(fn, func(in ssa.Instruction) {
+		if _, isCall := in.(ssa.CallInstruction); isCall {
+			n++
+		}
+	})
+	if n != 1 {
+		return fn
+	}
+	return callee
+}
+
 func c08r3(c *an.Ctx) {
-	pf := c.Fn("drpcwire", "ParseFrame")
+	pf := tailTarget(c.Fn("drpcwire", "ParseFrame"))
 	buf := pf.Params[0]
 	n := 0
 	res := func(v ssa.Value, at *ssa.BasicBlock) ssa.Value { return an.ResolveAt(v, at) }
